@@ -64,15 +64,18 @@ func (m *c05Mon) cb(login, password, service, realm string) (bool, string, error
 	m.mu.Unlock()
 	msg := make([]byte, o.MsgLen)
 	for i := range msg {
-		if o.Binary {
+		switch {
+		case o.Binary && o.MsgLen%4 == 1:
 			msg[i] = byte(i*7 + 1)
-		} else {
+		case o.Binary: // multi-byte UTF-8 text
+			msg[i] = "äöü€"[i%9]
+		default:
 			msg[i] = 'm'
 		}
 	}
 	var err error
 	if o.ErrLen > 0 {
-		err = errors.New(strings.Repeat("e", o.ErrLen))
+		err = errors.New(strings.Repeat("é", o.ErrLen/2) + strings.Repeat("e", o.ErrLen%2))
 	}
 	return o.OK, string(msg), err
 }
@@ -160,6 +163,9 @@ func c05Cases(rng *rand.Rand) []c05Case {
 		for _, el := range []int{0, 5, 300} {
 			for _, ml := range []int{0, 1, 20, 252, 253, 254, 300, 65532, 65533, 70000} {
 				outcomes = append(outcomes, c05Outcome{OK: ok, ErrLen: el, MsgLen: ml, Binary: ml%2 == 1})
+				if ml > 200 {
+					outcomes = append(outcomes, c05Outcome{OK: ok, ErrLen: el, MsgLen: ml + 2, Binary: true})
+				}
 			}
 		}
 	}
